@@ -67,6 +67,7 @@ class Controller:
         self.sample_rows = None
         self.info = {}
         self.stop_observed = False
+        self.inflight = None
 
     # -- helpers
     def _params(self, algo):
@@ -163,12 +164,14 @@ class Controller:
         params = self.params_digest(algo)
         p = self.plan
         self._pre_bytes = self.fs.durable(self.meta["ckpt"])
+        self.inflight = {"position": self.position, "snapshot": snap, "params": params}
         if p["kind"] == "fsfault" and self.saves_started == p["n"]:
             self.fs.arm(dict(p["fault"]))
         return snap, params
 
     def after_save(self, algo, snap, params):
         self.fs.disarm()
+        self.inflight = None
         rec = {"position": self.position, "snapshot": snap, "params": params, "bytes": self.fs.durable(self.meta["ckpt"])}
         self.checkpoints.append(rec)
         self.log.add("checkpoint", self.position, len(rec["bytes"] or b""))
@@ -343,6 +346,13 @@ def execute(scenario, log=None, baseline=None):
             if c["bytes"] is not None:
                 known_bytes[c["bytes"]] = c
         cur = fs.durable(meta["ckpt"])
+        if cur is not None and cur not in known_bytes and ctl.inflight is not None and cur != ctl._pre_bytes:
+            # a checkpoint write was interrupted after the new file had been installed
+            try:
+                json.loads(cur.decode())
+                known_bytes[cur] = dict(ctl.inflight, bytes=cur)
+            except ValueError:
+                pass
         if cur is None:
             use_ckpt, base, last_ckpt_rec = False, 0, None
         elif cur in known_bytes:
@@ -358,7 +368,8 @@ def execute(scenario, log=None, baseline=None):
             if not ok:
                 info["unusable_checkpoint"] = True  # C18 territory, not judged here
                 break
-            use_ckpt, base, last_ckpt_rec = True, ctl.position, None
+            info["unknown_checkpoint"] = True  # cannot attribute a position: stop the chain
+            break
         stats["restarts"] += 1
     return {"violations": _dedupe(violations), "states": states, "stats": stats, "fired": fired, "digest": log.digest(),
             "baseline": baseline, "info": info}
